@@ -358,6 +358,16 @@ def check_map_api(problems):
         tried += 1
         if bool(is_valid_name(extra)) != bool(ascii_name.match(extra)):
             wrong.append(extra)
+    # a name that is not a string at all (a naming function that forgot its return, a Path, bytes) is rejected at definition
+    import pathlib
+    from gwf import Target as _T
+    for cand in (None, True, 0, 12, pathlib.Path("Foo"), b"Foo", ("a",), 1.5):
+        tried += 1
+        try:
+            _T(name=cand, inputs=[], outputs=[], options={}, working_dir="/w")
+            wrong.append(repr(cand))
+        except Exception:
+            pass
     if wrong:
         problems.append(f"names: is_valid_name disagrees with 'identifier-like' ([A-Za-z_][A-Za-z0-9._]*) on "
                         f"{len(wrong)} strings, e.g. {[w.encode('unicode_escape').decode() for w in wrong[:6]]}")
